@@ -177,6 +177,59 @@ def work(chunk, st):
             st.sample({'peer': task[0], 'role': task[1], 'perturbations': len(perturbations(task[0], task[1]))})
 
 
+# ---- one generated policy applied to a list of targets in one invocation (-T): the verdict of each target is the one it gets alone
+def history_tasks(ps, tier):
+    out = []
+    pool = [s for s in ps if perturbations(s, 'server')]
+    step = max(1, len(pool) // (8 if tier == 'quick' else 40))
+    for spec in pool[::step]:
+        perts = perturbations(spec, 'server')
+        kinds = {}
+        for kind, field, s2 in perts:
+            kinds.setdefault(kind, (kind, field, s2))
+        picks = list(kinds.values())[:3 if tier == 'quick' else 8]
+        for kind, field, s2 in picks:
+            out.append((spec, [('drift', field, s2), ('same', None, spec)]))
+            out.append((spec, [('same', None, spec), ('drift', field, s2), ('same', None, spec)]))
+        if len(picks) >= 2:
+            out.append((spec, [('drift', picks[0][1], picks[0][2]), ('drift', picks[1][1], picks[1][2]), ('same', None, spec)]))
+    return out
+
+
+def work_history(chunk, st):
+    for spec, seq in chunk:
+        path = H.tmp_path('c05-hist-%d.policy' % os.getpid())
+        if os.path.exists(path):
+            os.unlink(path)
+        r0 = audit(spec, 'server', ['-M', path])
+        if r0.status != 0 or not os.path.exists(path):
+            continue        # reported by check_peer
+        shape = tuple(k for k, _f, _s in seq)
+        for fmt in ('json', 'text'):
+            res, outs = H.audit_sequence([make_server(s) for _k, _f, s in seq], opts=['-n', '--skip-rate-test', '-P', path] + (['-j'] if fmt == 'json' else []))
+            st.execution(res.world, outcome=('history', shape, fmt, res.status), root=('history', json.dumps(spec, sort_keys=True), json.dumps([s for _k, _f, s in seq], sort_keys=True), fmt),
+                         nontrivial=('history', json.dumps([s for _k, _f, s in seq], sort_keys=True), fmt))
+            if outs is None or len(outs) != len(seq):
+                st.violation('history:output-shape:%s' % fmt, {'spec': spec, 'sequence': list(shape), 'status': res.status, 'stdout': res.stdout[-400:]})
+                continue
+            for i, ((kind, field, _s), o) in enumerate(zip(seq, outs)):
+                if fmt == 'json':
+                    passed, fields = o.get('passed'), [e['mismatched_field'] for e in o.get('errors', [])]
+                else:
+                    pt = report.PolicyText(o)
+                    passed, fields = pt.result == 'passed', pt.error_fields
+                if kind == 'same' and (passed is not True or fields):
+                    st.violation('history:fails-on-same-peer-after-other-targets:%s' % fmt, {'spec': spec, 'sequence': list(shape), 'index': i, 'passed': passed, 'fields': fields})
+                if kind == 'drift' and (passed is not False or not any(f.startswith(field) for f in fields)):
+                    st.violation('history:drift-not-detected-in-list:%s' % fmt, {'spec': spec, 'sequence': list(shape), 'index': i, 'passed': passed, 'fields': fields, 'expected_field': field})
+            if res.status != 3:
+                st.violation('history:exit-status', {'spec': spec, 'sequence': list(shape), 'status': res.status})
+        if os.path.exists(path):
+            os.unlink(path)
+    if chunk:
+        st.sample({'policy_history': [k for k, _f, _s in chunk[0][1]], 'peer': chunk[0][0]['kn']}, cap=3)
+
+
 # ---- built-in policies
 def builtin_tasks():
     return sorted(runner.M['builtin_policies'].BUILTIN_POLICIES.keys())
@@ -236,6 +289,8 @@ def run(tier, seed):
     tasks += [(s, 'client') for s in cl]
     st = par.pmap(work, tasks, chunk=2)
     par.pmap(work_builtin, builtin_tasks(), stats=st, chunk=4)
+    hist = history_tasks(ps, tier)
+    par.pmap(work_history, hist, stats=st, chunk=2)
     vcases = []
     for spec in H.pick(ps, seed, 6 if tier == 'quick' else 30):
         path = H.tmp_path('c05-val-%d.policy' % len(vcases))
@@ -255,8 +310,10 @@ def run(tier, seed):
         rule='%d server peers and %d client peers (kex/cipher/MAC list variants incl. gss-* names with "=", "+", "/", "@"; %d host-key '
              'configurations incl. RSA/Ed25519 certificates with RSA/Ed25519/ECDSA CAs; GEX moduli %s); for each: -M, then -P on the same peer '
              '(JSON and text), then -P on every single-attribute perturbation (insert at each position / delete each / swap each adjacent pair '
-             'per list; host-key size, CA size, CA type, modulus size); all %d built-in policies against a peer synthesised from the policy' % (
-                 len(ps), len(cl), len(KEY_CONFIGS), GEX_SIZES, len(builtin_tasks())),
+             'per list; host-key size, CA size, CA type, modulus size); all %d built-in policies against a peer synthesised from the policy; '
+             '%d histories: the generated policy applied with -T (one worker thread) to [drifted, same], [same, drifted, same] and '
+             '[drifted, drifted, same] target lists, JSON and text, each target judged as if audited alone' % (
+                 len(ps), len(cl), len(KEY_CONFIGS), GEX_SIZES, len(builtin_tasks()), len(hist)),
         assumptions=['policies are written to and read from real files', 'chained invocations share nothing but the file'],
         exhaustive=True, traces_validated=validated, extra={'peers': len(tasks)})
 
